@@ -12,7 +12,8 @@ from oracles import typing_ref  # noqa: E402
 typing_ref.templates()
 N = envint("VF_N", 4)
 NMIN = envint("VF_NMIN", 0)
-PRE = envstr("VF_PRE", "")
+PRE = envstr("VF_PRE", "")   # concrete prefix / suffix: the string under test is PRE + t + SUF
+SUF = envstr("VF_SUF", "")
 KI = envint("VF_KI", 0)          # key index for get_as
 SEP = conf.sidtype_keytype_sep
 
@@ -35,7 +36,7 @@ def get_as(t: str) -> bool:
     pre: '?' not in t and ':' not in t
     post: _
     """
-    sid = Sid(PRE + t)
+    sid = Sid(PRE + t + SUF)
     if not sid:
         return True
     keys = list(sid.fields.keys())
@@ -52,7 +53,7 @@ def parent(t: str) -> bool:
     pre: '?' not in t and ':' not in t
     post: _
     """
-    sid = Sid(PRE + t)
+    sid = Sid(PRE + t + SUF)
     if not sid:
         return True
     f = sid.fields
@@ -89,7 +90,7 @@ def walk(t: str) -> bool:
     pre: '?' not in t and ':' not in t
     post: _
     """
-    sid = Sid(PRE + t)
+    sid = Sid(PRE + t + SUF)
     if not sid:
         return True
     cur = sid
@@ -110,7 +111,7 @@ def untyped(t: str) -> bool:
     pre: '?' not in t and ':' not in t
     post: _
     """
-    sid = Sid(PRE + t)
+    sid = Sid(PRE + t + SUF)
     if sid:
         return True
     e = Sid()
@@ -118,7 +119,7 @@ def untyped(t: str) -> bool:
         return fail("untyped-nav")
     if sid.keytype is not None or sid.basetype is not None or len(sid) != 0 or sid.get("p") is not None:
         return fail("untyped-attrs")
-    if PRE + t != "" and sid.get_with(p="h") != e:
+    if PRE + t + SUF != "" and sid.get_with(p="h") != e:
         return fail("untyped-get_with")
     if sid.is_leaf():
         return fail("untyped-leaf")
@@ -132,7 +133,7 @@ def missing_key(t: str, k: str) -> bool:
     pre: '?' not in t and ':' not in t
     post: _
     """
-    sid = Sid(PRE + t)
+    sid = Sid(PRE + t + SUF)
     if not sid:
         return True
     if k in ("p", "t", "n", "q", "o", "ext", "version"):
@@ -147,5 +148,5 @@ def reach(t: str) -> bool:
     pre: '?' not in t and ':' not in t
     post: _
     """
-    sid = Sid(PRE + t)
+    sid = Sid(PRE + t + SUF)
     return not (bool(sid) and len(sid) >= 3 and sid.parent / sid.get(sid.keytype) == sid)
